@@ -539,6 +539,11 @@ func replay(id, path string) int {
 	h.Must(err)
 	defer h.RemoveAll(rc.work)
 	rc.replays = filepath.Join(rc.work, "replays")
+	for _, f := range loadFindings() {
+		if f.Property == id && f.Status == "known" {
+			rc.exclude = append(rc.exclude, f.Key) // a replay judges the case, not the listed findings
+		}
+	}
 	rc.garble = h.BuildGarble(rc.work)
 	abs, _ := filepath.Abs(path)
 	// case.json names the unit that can re-execute it
